@@ -13,6 +13,12 @@ SymOuter(g, h) == MatAdd(Outer(g, h), Outer(h, g))    \* degenerate quadric cons
 IsDegenerate(Q) == Det(Q) = 0
 QuadricClassEq(A, B) == SameClass(Flatten(A), Flatten(B))
 
+\* conic through five points (bracket formula), symmetrised
+ConicThrough5(a, b, c, d, e) ==
+  LET ace == Det3(<<a, c, e>>) bde == Det3(<<b, d, e>>) ade == Det3(<<a, d, e>>) bce == Det3(<<b, c, e>>)
+      M == MatAdd(MatScale(ace * bde, Outer(Cross(a, d), Cross(b, c))), MatScale(-(ade * bce), Outer(Cross(a, c), Cross(b, d))))
+  IN MatAdd(M, Transpose(M))
+
 \* circle / sphere with integer centre c (affine coordinates, length n) and squared radius r2 :  |x - c|^2 = r2
 SphereM(c, r2) ==
   LET n == Len(c) IN
